@@ -18,7 +18,7 @@ META = {
     "assumptions": ["RINEX codes and PRN numbering pinned in spec/msm.json (RTCM 10403.3); frequency-band names are pyrtcm's own vocabulary and read from the repo table",
                     "labels compared after normalising digit strings to numbers"],
 }
-WALL_BUDGET = {"quick": 480, "thorough": 5400}
+WALL_BUDGET = {"quick": 900, "thorough": 5400}
 SHAPES_Q = ((0, 0), (1, 1), (2, 1), (1, 2), (2, 2))
 
 
